@@ -68,6 +68,7 @@ DEPTH_THOROUGH = {"DQN": 4, "DDPG": 4, "TD3": 4, "SAC": 4, "TD7": 3, "MRQ": 4, "
 OBS, ACT, NB, NBUF = 3, 2, 8, 16  # observation / action dimensions, batch size, transitions per buffer
 GAMMA = 0.99
 SELF_LOOPS = ("Evaluate", "Act")
+SAMPLE_OPS = ("train_step_with_loss(ddqn_per_loss)", "_update_entropy_coefficient", "td7._train_step", "update_critic_and_policy")
 
 
 def _workers():
@@ -694,6 +695,8 @@ def cover(G, ag, on_violation, stats):
             except Deviation as dv:
                 on_violation(dv, path + [step])
                 continue
+            if op in SAMPLE_OPS and op not in stats["samples"] and len(path) >= 1:
+                stats["samples"][op] = {"family": ag.family, "after": [opname(p["op"], p["args"]) for p in path], "pre": G.state[k]["ver"], "op": op, "args": args, "real post (= a successor TLC allows)": G.state[k2]["ver"]}
             if op not in SELF_LOOPS:
                 stats["updates"] += 1
                 if isinstance(args, dict) and args.get("g") == "zero":
@@ -816,7 +819,7 @@ def binding_canaries(G, meta, seed):
 
 
 def _stats():
-    return {"edges": 0, "updates": 0, "states": 0, "zero": 0, "zero_unchanged": 0, "by_op": {}}
+    return {"edges": 0, "updates": 0, "states": 0, "zero": 0, "zero_unchanged": 0, "by_op": {}, "samples": {}}
 
 
 # ========================================================================= main
@@ -890,11 +893,8 @@ def _run_fn(rep, quick, depth, futs, t0):
         for k, v in st["by_op"].items():
             total["by_op"][f"{fam}:{k}"] = v
         nontrivial += sum(1 for k, es in G.out.items() for (op, a, e, k2) in es if op not in SELF_LOOPS)
-        want = {"DQN": "train_step_with_loss(ddqn_per_loss)", "SAC": "_update_entropy_coefficient", "TD7": "td7._train_step", "MRQ": "update_critic_and_policy"}.get(fam)
-        hit = [(k, e) for k, es in G.out.items() for e in es if e[0] == want]
-        if hit:
-            k, e = hit[len(hit) // 2]
-            rep.sample({"family": fam, "pre": G.state[k]["ver"], "op": e[0], "args": e[1], "one allowed post": G.state[e[3]]["ver"]})
+        for smp in st["samples"].values():
+            rep.sample(smp)
     timing["replay_done_s"] = round(time.time() - t0, 1)
 
     # TLC verdicts
